@@ -688,11 +688,7 @@ static CCase gen_c() {
     case 9: c.val = 0.0; c.fam = "zero"; break;
     default: { char b[40]; snprintf(b, sizeof b, "%d.%de%d", R(1, 9), R(0, 99999), R(-25, 25)); c.val = sd(b); c.fam = "sci-literal"; break; }
     }
-    if (!no_exclude() && msp_log10_val(c.val)) {   // known finding: excluded by construction (counted), witness replayed separately
-        count_excluded("F-MSP-LOG10");
-        for (int i = 0; i < 64 && msp_log10_val(c.val); i++) c.val = nextafter(c.val, 1.0);
-        c.tie = false;
-    }
+    if (msp_log10_val(c.val)) label("c:log10-off-by-one-value");   // (F-MSP-LOG10, fixed: such values are no longer excluded)
     if (P(35)) c.val = -c.val;
     int msp =c.val == 0 ? 0 : (int) std::floor(std::log10(std::fabs(c.val)));
     if (!scale_set) {
@@ -737,10 +733,6 @@ static std::string classify_case(const CaseFile &c) {
     if (sub == "a" || sub == "b") {
         ustr t = deser_u16(c.get("text"));
         return "";   // F-EXPOVF and F-TIE-ODD are fixed findings: they suppress nothing
-    }
-    if (sub == "c" && msp_log10_val(bits_de(c.get("val")))) {
-        g_force_tolerate = true; std::string m = run_case(c); g_force_tolerate = false;
-        return m.find("leading zeroes") != std::string::npos ? "F-MSP-LOG10" : "";
     }
     if (sub == "c") {
         // F-LOCALE: the only complaint is LC_NUMERIC left at "C" by init_numb/autoinit_numb (decided by running the case both ways)
